@@ -68,18 +68,7 @@ Definition check_pg (c : pg_case) : bool :=
   && close_rows scale model out.
 
 (* ---------------------------------------------------------------- multi_taper_psd *)
-(* round half to even of a rational (np.round) *)
-Definition qrne (q : Q) : Z :=
-  let f := Qfloor q in
-  let r := q - inject_Z f in
-  match Qcompare r (1 # 2) with
-  | Lt => f | Gt => (f + 1)%Z | Eq => if Z.even f then f else (f + 1)%Z end.
-(* 528-535: BW wins; default NW = 4 *)
-Definition nw_of (bw nw : option float) (n : nat) (Fs : Q) : Q :=
-  match bw with
-  | Some b => inject_Z (qrne (f2q b * inj n / Fs)) / 2
-  | None => match nw with Some v => f2q v | None => 4 end
-  end.
+Definition oq (o : option float) : option Q := match o with Some v => Some (f2q v) | None => None end.
 
 Record mt_case := mk_mt {
   mt_lead : list nat;
@@ -120,10 +109,9 @@ Definition weights_ok (adaptive : bool) (K L : nat) (lam : list Q) (w : list (li
 
 (* shared by multi_taper_psd and multi_taper_csd: everything up to and including the fft call;
    returns (K, NFFT, kept eigenvalues) when the recorded data agrees with the model *)
-Definition mt_front (n : nat) (nfft_arg : option nat) (Fs : Q) (low_bias : bool) (bw nw : option float)
+Definition mt_front (n : nat) (nfft_arg : option nat) (NW : Q) (low_bias : bool)
            (dargs : nat * float * Z) (s : list (list C)) (dpss : list (list Q)) (eig : list Q)
            (fft_n : nat) (fft_in : list (list C)) : option (nat * nat * list Q) :=
-  let NW := nw_of bw nw n Fs in
   let '(dn, dnw, dk) := dargs in
   let keep := keep_idx low_bias eig in
   let K := length keep in
@@ -142,7 +130,7 @@ Definition check_mt (c : mt_case) : bool :=
   let M := prodn (mt_lead c) in
   let n := mt_n c in
   let Fs := Qred (f2q (mt_fs c)) in
-  match mt_front n (mt_nfft_arg c) Fs (mt_low_bias c) (mt_bw c) (mt_nw c) (mt_dpss_args c)
+  match mt_front n (mt_nfft_arg c) (nw_psd (oq (mt_bw c)) (oq (mt_nw c)) n Fs) (mt_low_bias c) (mt_dpss_args c)
                  (map rowc (mt_s c)) (map rowq (mt_dpss c)) (rowq (mt_eig c))
                  (mt_fft_n c) (map rowc (mt_fft_in c)) with
   | None => false
